@@ -21,11 +21,13 @@ func C18(c *Ctx) {
 	r.Rule("C18-b", "statePool.Put occurs only in Discard after clearing; restoreState = Discard old; install clone; clone tokens are restored at most once per path")
 	r.Rule("C18-c", "no go statement; no value of type *parser is stored outside locals/parameters (not in package variables, struct fields or sent on channels); newParser's result is used only as the receiver of parse in Parse")
 	r.Rule("C18-d", "Option values are immutable: the closure returned by an option constructor stores only through its *parser parameter or into variables declared inside the closure - never into a captured variable (a constructor parameter), so one Option value may be passed to concurrent Parse calls")
+	r.Rule("C18-e", "pooled storage stays inside the call that took it: a value obtained from a package-level sync.Pool other than the state pool (whose life cycle is C18-b) - the value itself, its Bytes() or a slice of it - is not returned, not stored and not passed to another function, so nothing a Parse call hands back (matched text is a slice of the input) can lie in storage that another call reuses")
 	abs := c.allAbs()
 	r.Min("semantic variants analysed", 16, len(abs))
 	for _, a := range abs {
 		c18a(c, a.V)
 		c18d(c, a.V)
+		c18e(c, a.V)
 		if a.V.Params.HasState() {
 			c05ShapesRule(c, a, "C18-b")
 			var bad []string
@@ -292,4 +294,154 @@ func c18d(c *Ctx, v *variants.Variant) {
 	}
 	sort.Strings(bad)
 	r.Check(len(bad) == 0 && n >= 5, "C18-d", "T.options:closures-write-only-through-their-parser", v.Name, "builder/static_code.go", fmt.Sprintf("%d option closures, none stores to a captured variable", n), fmt.Sprintf("%d option closures; %s", n, strings.Join(uniq(bad), "; ")))
+}
+
+// c18e (C18-e): values taken from a package-level pool do not escape the function that took them.
+func c18e(c *Ctx, v *variants.Variant) {
+	r := c.R
+	isPool := func(t types.Type) bool {
+		if p, ok := t.(*types.Pointer); ok {
+			t = p.Elem()
+		}
+		n, ok := t.(*types.Named)
+		return ok && n.Obj().Name() == "Pool" && n.Obj().Pkg() != nil && n.Obj().Pkg().Path() == "sync"
+	}
+	var bad []string
+	pools := map[string]bool{}
+	nGet := 0
+	for _, fd := range v.Funcs() {
+		if fd.Body == nil {
+			continue
+		}
+		alias := map[types.Object]string{} // local -> pool it aliases storage of
+		poolOf := func(e ast.Expr) string {
+			// P.Get() or P.Get().(T) on a package-level pool
+			if ta, ok := e.(*ast.TypeAssertExpr); ok {
+				e = ta.X
+			}
+			ce, ok := stripParens(e).(*ast.CallExpr)
+			if !ok {
+				return ""
+			}
+			sel, ok := ce.Fun.(*ast.SelectorExpr)
+			if !ok || sel.Sel.Name != "Get" {
+				return ""
+			}
+			id, ok := sel.X.(*ast.Ident)
+			if !ok {
+				return ""
+			}
+			o := v.Info.Uses[id]
+			if o == nil || o.Parent() != v.Pkg.Scope() || !isPool(o.Type()) {
+				return ""
+			}
+			return id.Name
+		}
+		var aliasOf func(e ast.Expr) string
+		aliasOf = func(e ast.Expr) string {
+			switch x := stripParens(e).(type) {
+			case *ast.Ident:
+				if o := v.Info.Uses[x]; o != nil {
+					return alias[o]
+				}
+			case *ast.SliceExpr:
+				return aliasOf(x.X)
+			case *ast.StarExpr:
+				return aliasOf(x.X)
+			case *ast.UnaryExpr:
+				return aliasOf(x.X)
+			case *ast.TypeAssertExpr:
+				return aliasOf(x.X)
+			case *ast.CallExpr:
+				if p := poolOf(x); p != "" {
+					return p
+				}
+				// methods that hand out the storage itself
+				if sel, ok := x.Fun.(*ast.SelectorExpr); ok && (sel.Sel.Name == "Bytes" || sel.Sel.Name == "AvailableBuffer" || sel.Sel.Name == "Next") {
+					return aliasOf(sel.X)
+				}
+			}
+			if p := poolOf(e); p != "" {
+				return p
+			}
+			return ""
+		}
+		// aliases, to a fixed point over the assignments of the function
+		for changed := true; changed; {
+			changed = false
+			ast.Inspect(fd.Body, func(n ast.Node) bool {
+				as, ok := n.(*ast.AssignStmt)
+				if !ok || len(as.Lhs) != len(as.Rhs) {
+					return true
+				}
+				for i, l := range as.Lhs {
+					id, ok := l.(*ast.Ident)
+					if !ok {
+						continue
+					}
+					if p := aliasOf(as.Rhs[i]); p != "" {
+						o := v.Info.Defs[id]
+						if o == nil {
+							o = v.Info.Uses[id]
+						}
+						if o != nil && alias[o] == "" {
+							alias[o] = p
+							changed = true
+						}
+					}
+				}
+				return true
+			})
+		}
+		ast.Inspect(fd.Body, func(n ast.Node) bool {
+			switch x := n.(type) {
+			case *ast.CallExpr:
+				if p := poolOf(x); p != "" {
+					pools[p] = true
+					nGet++
+				}
+				// the pool's own Put takes the value back; methods called on the value use it in place
+				if sel, ok := x.Fun.(*ast.SelectorExpr); ok && sel.Sel.Name == "Put" {
+					if id, ok := sel.X.(*ast.Ident); ok && isPool(v.Info.TypeOf(id)) {
+						return true
+					}
+				}
+				if id, ok := x.Fun.(*ast.Ident); ok {
+					if _, builtin := v.Info.Uses[id].(*types.Builtin); builtin && (id.Name == "len" || id.Name == "cap" || id.Name == "clear" || id.Name == "delete") {
+						return true
+					}
+				}
+				for _, a := range x.Args {
+					if p := aliasOf(a); p != "" && p != "statePool" {
+						bad = append(bad, fmt.Sprintf("%s: %s passes storage taken from %s to %s: what that call keeps or returns (matched text is a slice of the input) lies in a buffer the next call reuses", v.Where(a.Pos()), fd.Name.Name, p, nospace(x.Fun)))
+					}
+				}
+			case *ast.ReturnStmt:
+				for _, res := range x.Results {
+					if p := aliasOf(res); p != "" && p != "statePool" {
+						bad = append(bad, fmt.Sprintf("%s: %s returns storage taken from %s", v.Where(res.Pos()), fd.Name.Name, p))
+					}
+				}
+			case *ast.AssignStmt:
+				if len(x.Lhs) == len(x.Rhs) {
+					for i, l := range x.Lhs {
+						if _, isIdent := l.(*ast.Ident); isIdent {
+							continue
+						}
+						if p := aliasOf(x.Rhs[i]); p != "" && p != "statePool" {
+							bad = append(bad, fmt.Sprintf("%s: %s stores storage taken from %s into %s", v.Where(x.Pos()), fd.Name.Name, p, nospace(l)))
+						}
+					}
+				}
+			}
+			return true
+		})
+	}
+	sort.Strings(bad)
+	var names []string
+	for p := range pools {
+		names = append(names, p)
+	}
+	sort.Strings(names)
+	r.Check(len(bad) == 0, "C18-e", "T.pools:pooled-storage-does-not-escape", v.Name, "builder/static_code.go", fmt.Sprintf("%d Get calls on package-level pools %v; no pooled value other than the state dictionary leaves the function that took it", nGet, names), strings.Join(uniq(bad), "; "))
 }
